@@ -272,6 +272,9 @@ def layer_b(ctx, report, nfiles):
         rid = sw.Column([b"rid"], 2, 0, 0, [(0, 0, r) for r in range(n)])
         v2 = rng.random() < 0.35
         use_dict = rng.random() < 0.5
+        if idx % 7 == 3:
+            # directed, whatever the seed: dictionary-encoded pages followed by PLAIN pages in one chunk, v1 and v2 in turn
+            use_dict, v2 = True, (idx // 7) % 2 == 0
 
 
         k = rng.choice([1, 1, 2, 3])
@@ -288,6 +291,8 @@ def layer_b(ctx, report, nfiles):
                 if v2:
                     pos = [i for i in pos if ents[i][1] == 0]
                 kk = rng.choice([0, 0, 1, 2, 3])
+                if idx % 7 == 3:
+                    kk = max(kk, 2)
                 bs = sorted(rng.sample(pos, min(kk, len(pos))))
                 per_rg.append(bs)
                 md = col.max_def
